@@ -122,31 +122,27 @@ func (e *Eng) evalCallInner(st *State, call *ast.CallExpr) []*Val {
 			return e.evalBuiltin(st, id.Name, call)
 		}
 	}
-	// immediately-invoked function literal: inline
-	if fl, ok := fun.(*ast.FuncLit); ok && len(call.Args) == 0 && fl.Type.Results == nil {
-		saved := e.exits
-		savedRes := e.results
-		e.exits = nil
-		e.results = nil
-		end := e.execBlock(st.clone(), fl.Body.List)
-		outs := []*State{end}
-		var keep []Exit
-		for _, x := range e.exits {
-			if x.Kind == ExitReturn {
-				outs = append(outs, x.St)
-			} else {
-				keep = append(keep, x)
-			}
+	// immediately-invoked function literal, or a call through a local variable known to hold a literal: inline
+	var lit *ast.FuncLit
+	if fl, ok := fun.(*ast.FuncLit); ok {
+		lit = fl
+	} else if id, ok := fun.(*ast.Ident); ok {
+		if v, ok := st.vars[e.info.ObjectOf(id)]; ok && v != nil && v.Lit != nil {
+			lit = v.Lit
 		}
-		e.exits = append(saved, keep...)
-		e.results = savedRes
-		m := e.merge(outs)
-		if m == nil {
+	}
+	if lit != nil {
+		var args []*Val
+		for _, a := range call.Args {
+			args = append(args, e.eval(st, a))
+		}
+		out, vals := e.execClosure(st.clone(), lit, args)
+		if out == nil {
 			st.dead = true
 			return nil
 		}
-		*st = *m
-		return nil
+		*st = *out
+		return vals
 	}
 	key, sig, recvExpr := calleeKey(e.info, call)
 	cls, text := e.anchorClauses(call)
@@ -275,7 +271,9 @@ func (e *Eng) evalCallInner(st *State, call *ast.CallExpr) []*Val {
 		preState = st.clone()
 		e.havocHeap(st)
 	}
-	_ = preState
+	savedOld := e.oldState
+	e.oldState = preState
+	defer func() { e.oldState = savedOld }()
 	for i := 0; i < sig.Results().Len(); i++ {
 		name := sig.Results().At(i).Name()
 		if i < len(con.Results) && con.Results[i] != "" {
@@ -472,7 +470,7 @@ func (e *Eng) evalBuiltin(st *State, name string, call *ast.CallExpr) []*Val {
 		case *types.Slice:
 			ln := e.eval(st, call.Args[1])
 			arr := e.freshNonNil("make.arr", types.Typ[types.Uintptr])
-			if e.con != nil && e.con.NoPanic {
+			if e.ownPanicsChecked() {
 				e.oblige(st, "nopanic", "make-len "+e.src(call), "(>= "+ln.T+" 0)", call.Pos())
 			}
 			e.gap("make([]T): zero contents not asserted")
